@@ -61,6 +61,13 @@ def run_config(chk, tier, cfgname):
                                r"could not be analysed")
     typestate.apply(chk, "mark_one-pending-work", "mark_one",
                     specfn=lambda r: [p_ for p_ in typestate.SPECS["mark_one"](r) if pending_work.search(p_)])
+    # ... and likewise for sweep_one: Continue while there is an object at the cursor (which then advances), Break - with
+    # the predecessor cleared - only at the end of the list, no phase / root-flag / queue change: "ends Sleeping" and
+    # "never passes into a new Marking" are stated on exactly this summary
+    sweep_progress = _re.compile(r"empty cursor|cursor not advanced|with an object at the cursor|sweep_prev not cleared|"
+                                 r"changed phase|could not be analysed")
+    typestate.apply(chk, "sweep_one-progress", "sweep_one",
+                    specfn=lambda r: [p_ for p_ in typestate.SPECS["sweep_one"](r) if sweep_progress.search(p_)])
     typestate.apply(chk, "phase-table", "phase", specfn=lambda r: [] if (not r.err and all(
         o.ret == r.pre["phase"] for o in r.outs)) else ["Context::phase() does not report the stored phase"])
     common.phase_writers(chk, prog)
